@@ -1,5 +1,5 @@
 prop("C16", pkg="c16", level="fault_enumeration",
-     rule="rapid draws a message type and 8 small values per type from the shared generator pgen (same type space as C03, including top-level values and fields behind 1..3 pointers to Message / custom implementers and corpus structs, values sized so that encodings stay within a few "
+     rule="rapid draws a message type and 8 small values per type from the shared generator pgen (same type space as C03 - its corpus includes implementers that rely on the caller for room: a copy-based custom MarshalTo that does not check, a Message.Marshal that assumes len(b) >= Size() -, including top-level values and fields behind 1..3 pointers to Message / custom implementers and corpus structs, values sized so that encodings stay within a few "
           "hundred bytes: strings <= 40 bytes, repeated fields <= 12 elements, nesting <= 2), by value or (25 %) by pointer; for each value MarshalTo is called with EVERY destination "
           "length 0..Size(v)+3, the destination lying between canary bytes (24 before, 40 after) with cap == len (33 %) or cap extending into the canaries. One evaluation = one "
           "(value, destination length) call. Non-trivial = a length strictly inside the encoding of a field at some nesting level (not on a field boundary found by walking "
